@@ -203,13 +203,13 @@ def c06(ctx):
 
 # =========================================================================== C07 (front-end part; emitted constants are added by the back-end stage)
 def c07_front(ctx, acc):
-    g_parse(ctx, acc, 'c07g', 'MC_C07', cfg(['Seed = %d' % (ctx.seed % 100000), 'NRandom = %d' % pick(ctx, 6, 120)], ['EmitVector']), PARSE_KINDS_TREE, timeout=3000)
+    g_parse(ctx, acc, 'c07g', 'MC_C07', cfg(['Seed = %d' % (ctx.seed % 100000), 'NRandom = %d' % pick(ctx, 6, 120)], ['EmitVector', 'EmitLetters']), PARSE_KINDS_TREE, timeout=3000)
     t_parse(ctx, acc, 'c07t', ['--mode', 'numbers', '--count', str(pick(ctx, 3000, 30000)), '--seed', str(ctx.seed)], PARSE_KINDS_TREE)
 
 
 # =========================================================================== C08 (front-end part)
 def c08_front(ctx, acc):
-    inv = ['InvChmod', 'InvOracleAgrees', 'EmitVector']
+    inv = ['InvChmod', 'InvOracleAgrees', 'EmitVector', 'EmitOdd']
     g_parse(ctx, acc, 'c08oct', 'MC_C08', cfg(['MaxLen = 1', 'Mode = "octal"', 'Slice = 1'], inv), PARSE_KINDS_TREE)
     g_parse(ctx, acc, 'c08cl', 'MC_C08', cfg(['MaxLen = 2', 'Mode = "clauses"', 'Slice = %d' % pick(ctx, 16, 1)], inv), PARSE_KINDS_TREE, timeout=3000)
     if not ctx.quick:
@@ -335,8 +335,17 @@ RUNTIME_ASSUMPTIONS = [
 ]
 
 
+def design_check(ctx, acc, family, maxsize):
+    """model-level: the specification's own Compile is a valid translation (MC_Codegen)"""
+    st, js = ctx.t.run_tlc_only('cg_' + family, 'MC_Codegen', cfg(['Family = "%s"' % family, 'MaxSize = %d' % maxsize], ['InvDesignValid']), timeout=6000, workers=8)
+    if st['errors']:
+        raise ctx.t.ToolError('model-level check of the design failed (the oracle modules disagree with each other): ' + ' | '.join(st['errors'][:2]))
+    acc.add_stage('M design: Codegen.tla run by SchemeEval agrees with FindSem, family %s size<=%d' % (family, maxsize), st)
+
+
 def c02(ctx):
     acc = Acc()
+    design_check(ctx, acc, 'mix', pick(ctx, 2, 3))
     gt_sem(ctx, acc, 'c02single', 'single', 1, SEM_KINDS)
     gt_sem(ctx, acc, 'c02ops', 'ops', pick(ctx, 3, 4), SEM_KINDS)
     t_sem(ctx, acc, 'c02rand', ['--count', str(pick(ctx, 250, 6000)), '--seed', str(ctx.seed), '--size', '12', '--no-direct'], SEM_KINDS)
@@ -345,6 +354,7 @@ def c02(ctx):
 
 def c09(ctx):
     acc = Acc()
+    design_check(ctx, acc, 'c09', pick(ctx, 3, 4))
     gt_sem(ctx, acc, 'c09trees', 'c09', pick(ctx, 3, 5), SEM_KINDS)
     t_sem(ctx, acc, 'c09rand', ['--count', str(pick(ctx, 300, 5000)), '--seed', str(ctx.seed), '--size', '10', '--profile', 'c09'], SEM_KINDS)
     return tv_result(acc, 'all trees up to %d nodes over {true, false, a name test, print, quit, a file print} and not/and/or/list (exhaustive), plus seeded random trees up to 10 nodes over the same leaves; outputs on files that make the name test true and false compared with FindSem.tla SemTop (implicit -print iff no action node anywhere)' % pick(ctx, 3, 5), [])
@@ -500,10 +510,22 @@ def c16(ctx):
     if rp.returncode != 0 or not recs:
         raise ctx.t.ToolError('program generation failed: ' + rp.stderr[-400:])
     configs = [(2, 2), (3, 1)] if ctx.quick else [(2, 2), (3, 1), (3, 2)]
-    for (nt, calls) in configs:
+    # programs with more than 255 generated identifiers (130 matchers in front of two printers)
+    big = '%s/c16big.ndjson' % ctx.work
+    cmd = ctx.t.tlc_cmd('c16big_gen', 'MC_Trees', cfg(['Family = "c16big"', 'MaxSize = 1'], ['EmitTree']), workers=2)
+    tl = subprocess.Popen(cmd, cwd=ctx.t.SPEC, stdout=subprocess.PIPE, stderr=subprocess.STDOUT)
+    with open(big, 'w') as f:
+        rp = subprocess.run([binp, 'compile-trees'], stdin=tl.stdout, stdout=f, stderr=subprocess.PIPE, text=True, timeout=1800)
+    tl.wait()
+    bigrecs = [json.loads(l) for l in open(big) if l.startswith('{')]
+    if rp.returncode != 0 or len(bigrecs) != 2:
+        raise ctx.t.ToolError('big program generation failed: ' + rp.stderr[-400:])
+    nsmall = len(recs)
+    runs = [(trace, recs, nt, calls) for (nt, calls) in configs] + [(big, bigrecs, 2, 1)]
+    for (trace, recs, nt, calls) in runs:
         text = ('CONSTANT NThreads = %d\nCONSTANT Calls = %d\nSPECIFICATION Spec\nINVARIANT InvNoBadRelease\nINVARIANT InvWholeRecords\n'
                 'INVARIANT InvPrints\nPROPERTY Live\nCHECK_DEADLOCK TRUE\n') % (nt, calls)
-        name = 'c16scan_%dx%d' % (nt, calls)
+        name = 'c16scan_%dx%d%s' % (nt, calls, '_big' if trace == big else '')
         cmdl = ctx.t.tlc_cmd(name, 'MC_Scan', text, workers=16)
         env = dict(os.environ, TRACE=trace)
         t0 = __import__('time').time()
@@ -529,9 +551,9 @@ def c16(ctx):
             acc.failures.append(bad)
         elif st['errors']:
             raise ctx.t.ToolError('TLC reported: ' + ' | '.join(st['errors'][:3]))
-    acc.distinct = len(recs)
-    acc.programs = len(recs)
-    return tv_result(acc, 'AND chains of 1..%d printing actions (9 kinds: stdout/file x newline/NUL/format) plus the implicit print; for each recorded program the atomic steps of a policy call (lock, write, unlock) are extracted from the real text by SchemeEval; TLC explores every interleaving of %s; checked in every state: no release of an unheld mutex; in every terminal state: ports split into whole records (framed: complete frames with the emitted multiset; plain: concatenation of whole critical-section records); no deadlock; <>AllDone under weak fairness' % (pick(ctx, 2, 3), ', '.join('%d threads x %d calls' % c for c in configs)),
+    acc.distinct = nsmall + 2
+    acc.programs = nsmall + 2
+    return tv_result(acc, 'AND chains of 1..%d printing actions (9 kinds: stdout/file x newline/NUL/format) plus the implicit print, plus two programs with 130 matchers in front of two printers (more than 255 generated identifiers); for each recorded program the atomic steps of a policy call (lock, write, unlock) are extracted from the real text by SchemeEval; TLC explores every interleaving of %s; checked in every state: no release of an unheld mutex; in every terminal state: ports split into whole records (framed: complete frames with the emitted multiset; plain: concatenation of whole critical-section records); no deadlock; <>AllDone under weak fairness' % (pick(ctx, 2, 3), ', '.join('%d threads x %d calls' % c for c in configs)),
                      ['direct runtime prints (print-relative-path, print-file-fid) are modelled as one atomic write; mixing them with printer output in plain mode is outside what can be decided without the runtime source'], level='model_checking')
 
 def api_validate(ctx, acc, name, trace, kinds, timeout=3000):
